@@ -118,9 +118,12 @@ package pe
 //@   trusted
 //@   benign
 //@   ensures isNilIface(result.1) ==> result.0 != nil
+// regexp2 backtracks; it stops after re.MatchTimeout (default: never). ASSUMED from regexp2's source
+// (runner.go checkTimeout): with a finite MatchTimeout the match returns (an error) in bounded time.
 //@ func (*regexp2.Regexp).FindStringMatch
 //@   trusted
 //@   benign
+//@   requires int64(re.MatchTimeout) > 0 && int64(re.MatchTimeout) <= 60000000000
 // deterministic for a given match (regexp2: match.go)
 //@ func (*regexp2.Match).Groups
 //@   trusted
